@@ -106,7 +106,21 @@ def weights_equal(impl_w, model_w):
     return True
 
 
-def fit_close(got, want, rep, check_rsq=True):
+def lsq_tolerance(rows, weights, g, c, rho):
+    """first-order perturbation bound of the weighted least-squares solution computed in floating point
+    (Wedin): relative error <~ eps * (kappa + kappa^2 * tan(theta)), kappa^2 <= 4/rho for the column-scaled
+    2-column design matrix (rho = D/(Sw*Swxx)), tan(theta) = |residual| / |fitted| in the weighted norm.  A fit
+    through one dominant weight with a large residual on the light points is legitimately less accurate than TOL."""
+    if rho <= 0:
+        return float("inf")
+    rss = sum(w * (y - (g * x + c)) ** 2 for (x, y), w in zip(rows, weights))
+    fss = sum(w * (g * x + c) ** 2 for (x, y), w in zip(rows, weights))
+    kappa2 = 4.0 / rho
+    tan = math.sqrt(rss / fss) if fss > 0 else float("inf")
+    return TOL + 32 * 2.0 ** -52 * (math.sqrt(kappa2) + kappa2 * tan)
+
+
+def fit_close(got, want, rep, check_rsq=True, TOL=TOL):
     """gradient/intercept within TOL in the column-scaled norm of the design matrix, r² within TOL"""
     if "raises" in got or got["gradient"] is None or got["intercept"] is None:
         return False
@@ -321,6 +335,15 @@ class C06(Prop):
         dominant = bool(fitted and hyp and float(unrat(base["cov_margin"])) < COV_MARGIN_MIN)
         check_rsq = bool(fitted and hyp and base["dy_pos"] and float(unrat(base["rho_y"])) >= 1e-10 and not dominant)
         undet = bool(fitted and hyp and rho < RHO_MIN)
+        tol_fit = TOL
+        if fitted and hyp and not undet:
+            mw = fit_view(base, "model")["weights"]
+            wf = [float(w) for w in mw if w is not None and not (isinstance(w, float) and math.isnan(w))]
+            if len(wf) == len(clean_rows):
+                tol_fit = lsq_tolerance([(float(x), float(y)) for x, y in clean_rows], wf, spec_fit["gradient"],
+                                        spec_fit["intercept"], rho)
+            if tol_fit > 1e-5:  # too ill-conditioned for the float computation to be judged at all
+                undet = True
         impl, model, spec = [], [], []
         spec_ok = model_ok = True
         variants.append(("refit", rows, cw))
@@ -349,8 +372,8 @@ class C06(Prop):
             spec.append(spec_fit)
             if not hyp or undet:
                 continue
-            spec_ok = spec_ok and fit_close(got, spec_fit, base, check_rsq)
-            m_ok = fit_close(got, mv, base, check_rsq)
+            spec_ok = spec_ok and fit_close(got, spec_fit, base, check_rsq, TOL=tol_fit)
+            m_ok = fit_close(got, mv, base, check_rsq, TOL=tol_fit)
             if m_ok and isinstance(got["error"], float) and mv["error"] is not None:
                 scale = max([abs(y) for _, y in clean_rows] + [0.0]) + abs(mv["intercept"]) \
                     + abs(mv["gradient"]) * max([abs(x) for x, _ in clean_rows] + [0.0])
